@@ -62,6 +62,18 @@ Proof.
   - apply qc_neg_false_iff in H. rewrite H. reflexivity.
 Qed.
 
+(* a total written with a minus sign (`@@ -1,000 USD`) is the same total: only its magnitude is read *)
+Lemma with_sign_of_opp t q : with_sign_of (- t) q = with_sign_of t q.
+Proof. rewrite !with_sign_of_spec, Qcabs.Qcabs_opp. reflexivity. Qed.
+
+Lemma xchg_apply_total_opp c t v : xchg_apply (XT c (- t)) v = xchg_apply (XT c t) v.
+Proof. unfold xchg_apply. rewrite with_sign_of_opp. reflexivity. Qed.
+
+Lemma total_written_sign_ignored c t v :
+  xchg_apply (XT c (- t)) v = xchg_apply (XT c t) v
+  /\ snd (xchg_apply (XT c t) v) = if Qclt_le_dec v 0 then - Qcabs.Qcabs t else Qcabs.Qcabs t.
+Proof. split; [exact (xchg_apply_total_opp c t v) | exact (with_sign_of_spec t v)]. Qed.
+
 (* ---- zero tests on amounts ---- *)
 
 Lemma a_is_zero_iff a : a_is_zero a = true <-> all_zero a.
